@@ -75,14 +75,38 @@ def hd_dup(c, a):
     return {"ret": c.L.Hdupdd(c.h["F"], a["tag"], a["ref"], a["otag"], a["oref"])}
 
 
+def _fresh(c, ret, tag):
+    """is the reference an allocator handed out unused (file-wide for tag 0, for that tag otherwise), judged on a
+    wildcard walk of the directory made BEFORE the call; 0 is right only when every reference is taken"""
+    used = c.v.pop("_used_before", None)
+    if used is None:
+        return True
+    refs = set(r for (t, r) in used if tag == 0 or t == tag)
+    if ret == 0:
+        return len(refs) >= 65535
+    return ret not in refs
+
+
+def _note_used(c):
+    fid = c.h["F"]
+    n = c.L.Hnumber(fid, 0)
+    # (directories of tens of thousands of entries belong to the reference-space scenarios: those executions are all
+    #  validated by TLC, which makes the same judgement from the model's map)
+    c.v["_used_before"] = walk(c, fid, 0, 0, DF_FORWARD) if 0 <= n <= 3000 else None
+
+
 @op("HDir", "NewRef")
 def hd_newref(c, a):
-    return {"ret": c.L.Hnewref(c.h["F"])}
+    _note_used(c)
+    r = c.L.Hnewref(c.h["F"])
+    return {"ret": r, "fresh": _fresh(c, r, 0)}
 
 
 @op("HDir", "TagNewRef")
 def hd_tagnewref(c, a):
-    return {"ret": c.L.Htagnewref(c.h["F"], a["tag"])}
+    _note_used(c)
+    r = c.L.Htagnewref(c.h["F"], a["tag"])
+    return {"ret": r, "fresh": _fresh(c, r, a["tag"])}
 
 
 @op("HDir", "Number")
